@@ -3,6 +3,7 @@ package main
 import (
 	"fmt"
 	"math/rand"
+	"os"
 	"sync"
 	"time"
 
@@ -154,6 +155,9 @@ func prescreen(g *spec.Grammar, r *rand.Rand) [][]int {
 			differs = lim || acc != sim.Accept || fmt.Sprint(reds) != fmt.Sprint(sim.Reds) || fetched != sim.Fetched
 		}
 		if differs {
+			if os.Getenv("VERIF_DEBUG_PRESCREEN") != "" && len(res) == 0 {
+				fmt.Fprintf(os.Stderr, "PRESCREEN DIFF input %v: ref accept=%v reds=%v fetched=%d; yaccgo accept=%v reds=%v fetched=%d lim=%v\n%s\n", in, sim.Accept, sim.Reds, sim.Fetched, acc, reds, fetched, lim, text)
+			}
 			res = append(res, in)
 			if len(res) >= 40 {
 				break
